@@ -272,12 +272,12 @@ impl Driver {
             "class-sweep" => d.n = N_SCALARS,
             "escape-sweep" => d.n = N_SCALARS,
             "repeats" => d.n = q(1500, 25000),
-            "thresholds" => d.n = q(1200, 20000),
+            "thresholds" => d.n = q(500, 12000),
             "presentation" => d.n = q(1200, 20000),
             "anchors" => d.n = q(1500, 25000),
             "escape-words" => d.n = q(1200, 20000),
             "color" => d.n = q(1200, 20000),
-            "lattice" => d.n = q(600, 6000),
+            "lattice" => d.n = q(300, 5000),
             "orders" => d.n = q(1200, 15000),
             "stages" => d.n = q(1500, 25000),
             other => panic!("unknown driver {}", other),
